@@ -217,6 +217,7 @@ func init() {
 		ruleRewriteDispatch(e, r, []string{"internal/graph", "pkg/typesystem"}, rewriteSwitchAllowances, "rewrite-dispatch-total", "every type switch over the six rewrite kinds in the default engine and the typesystem covers all of them, or the reviewed subset with a fail-closed default", 8)
 		ruleReadSitesFiltered(e, r, map[string]bool{"v1": true})
 		ruleDirectTupleGuards(e, r)
+		ruleValidatorReference(e, r)
 		ruleConditionErrorsUsed(e, r, []string{"internal/graph", "internal/checkutil", "pkg/server/commands", "internal/check", "internal/listobjects"})
 		ruleCloneComplete(e, r, []string{"internal/graph", "internal/check", "pkg/server/commands/reverseexpand"})
 		// the fail-closed core of condition evaluation is shared with C25
@@ -227,4 +228,28 @@ func init() {
 		NotDecided: "that the reducers, the cycle cut and PathExists pruning implement the least fixpoint; three-valued precedence inside union/intersection/exclusion; the content of the validators (which tuples they accept).",
 	})
 	techniques["C01"] = "exhaustiveness of rewrite switches, forward value-flow of read results into filter constructors, cut reachability, clone field coverage"
+}
+
+func init() {
+	register("C18", "Tuple validation accepts exactly what the model allows", func(e *Engine, r *Reporter) {
+		ruleWriteValidated(e, r)
+		ruleContextualTuplesValidated(e, r)
+		ruleValidatorReference(e, r)
+	})
+	describe("C18", meta{
+		Decides:    "(1) WriteCommand reaches datastore.Write only behind validateWriteRequest()==nil; in it ValidateTupleForWrite, validateNotImplicit, the duplicate/size check and the condition-context size limit all stop the request on failure; ValidateTupleForWrite chains to ValidateUserObjectRelation and returns ValidateTupleForRead, which propagates the errors of the tupleset, type-restriction and condition validators; (2) every place where contextual tuples become readable by an engine is preceded on every path (in the function or up the static call chain) by a validation loop whose error stops the request; (3) validateCondition decides on both the restriction's type and condition (reviewed reference set).",
+		NotDecided: "that the validators accept exactly the documented set of tuples (their internal value-level logic beyond the reference sets).",
+	})
+	techniques["C18"] = "must-pass-through / dominance of validator calls, error-propagation analysis on SSA, reviewed getter reference sets"
+}
+
+func init() {
+	register("C11", "The cache controller bounds staleness after writes", func(e *Engine, r *Reporter) {
+		ruleInvalidationWiring(e, r)
+	})
+	describe("C11", meta{
+		Decides:    "mechanism wiring only: (1) each of the three invalidation marker keys is written by the controller and consulted by both iterator caches; (2) an iterator cache hit is returned only behind the comparison of the entry's LastModified with the store-wide and every per-entity marker; (3) in the controller the no-new-changes shortcut compares with the cached LastModified, a failed changelog read invalidates the store, each partial change writes both marker kinds, the stored entry records the newest change time; (4) the query cache's validity time comes from DetermineInvalidationTime of the request's store (and clones keep it, C01 clone rule).",
+		NotDecided: "the temporal statement itself: which entries are stale after which run, the partial/full boundary versus the TTL window, entries populated during a run — these depend on clocks and interleavings.",
+	})
+	techniques["C11"] = "who-calls agreement of marker keys, cut reachability on cache-hit returns, reviewed reference of the controller's comparisons"
 }
